@@ -254,10 +254,11 @@ Proof.
   - subst l. split; [left; reflexivity|]. constructor; [lia|constructor].
 Qed.
 
-Theorem restart_latest {F} (entries : list (Z * F)) :
+Theorem restart_latest {F} (unit : Z) (entries : list (Z * F)) :
   entries <> [] ->
   exists m,
-    restart_files entries = Some (m, map snd (filter (fun e => Z.eqb (fst e) m) entries)) /\
+    restart_files unit entries
+    = Some (Z.quot m unit, map snd (filter (fun e => Z.eqb (fst e) m) entries)) /\
     In m (map fst entries) /\ Forall (fun e => (fst e <= m)%Z) entries.
 Proof.
   intro Hne. unfold restart_files. pose proof (latest_spec (map fst entries)) as H.
@@ -265,6 +266,36 @@ Proof.
   - destruct H as [Hin Hall]. exists m. split; [reflexivity|]. split; [exact Hin|].
     rewrite Forall_map in Hall. exact Hall.
   - destruct entries; [contradiction|discriminate].
+Qed.
+
+(* when the time steps were written at strictly increasing times, the files imported are
+   exactly the files of the most recent export, whatever the times are (they need not be
+   the step indices) *)
+Theorem restart_most_recent {F} (unit : Z) (older : list (Z * F)) (t : Z) (last : list F) :
+  last <> [] ->
+  Forall (fun e => (fst e < t)%Z) older ->
+  exists i, restart_files unit (older ++ map (fun f => (t, f)) last) = Some (i, last).
+Proof.
+  intros Hne Hold. set (entries := older ++ map (fun f => (t, f)) last).
+  destruct (restart_latest unit entries) as (m & Hr & Hin & Hall).
+  { unfold entries. destruct last; [contradiction|]. destruct older; discriminate. }
+  assert (Hm : m = t).
+  { apply Z.le_antisymm.
+    - unfold entries in Hin. rewrite map_app, map_map in Hin. cbn [fst] in Hin.
+      apply in_app_or in Hin as [Hin|Hin].
+      + apply in_map_iff in Hin as (e & <- & He). rewrite Forall_forall in Hold.
+        specialize (Hold e He). lia.
+      + apply in_map_iff in Hin as (f & <- & _). lia.
+    - rewrite Forall_forall in Hall. destruct last as [|f last]; [contradiction|].
+      apply (Hall (t, f)). unfold entries. apply in_or_app. right. left. reflexivity. }
+  subst m. exists (Z.quot t unit). rewrite Hr. f_equal. f_equal.
+  unfold entries. rewrite filter_app, map_app.
+  replace (filter (fun e => Z.eqb (fst e) t) older) with (@nil (Z * F)).
+  - cbn [map app]. clear. induction last as [|f last IH]; [reflexivity|].
+    cbn [map filter fst]. rewrite Z.eqb_refl. cbn [map snd]. f_equal. exact IH.
+  - symmetry. clear -Hold. induction Hold as [|e older He Hold IH]; [reflexivity|].
+    cbn [filter]. replace (Z.eqb (fst e) t) with false; [exact IH|].
+    symmetry. apply Z.eqb_neq. lia.
 Qed.
 
 (* ------------------------------------------------------------------------------ *)
